@@ -23,6 +23,49 @@ pub fn gen(seed: u64, thorough: bool) {
     assert_send::<jbonsai::speech::SpeechGenerator>();
     let mut rng = Rng::new(seed);
     let src = Sources::new();
+    // ---- (0) state a call may leave behind on its *thread* (floating-point mode bits, thread-locals): on a thread that has
+    // never synthesized anything — spawned before the first batch call of this process, so it inherits clean state — a live
+    // generator is stepped half way, a batch synthesis of another utterance runs, the generator is stepped to its end; the
+    // same generator stepped in one go before any batch call, and the batch result, must all agree bit for bit. The volume is
+    // so low that every sample is subnormal, which makes the arithmetic sensitive to flush-to-zero modes (seeded change C03i).
+    {
+        let e0 = src.bundled.clone();
+        let labels_a = src.labels(&mut rng, 2, false);
+        let labels_b = src.labels(&mut rng, 1, false);
+        let handle = std::thread::spawn(move || {
+            let mut e = e0;
+            e.condition.set_fperiod(8);
+            e.condition.set_volume(-6300.0);
+            let fp = e.condition.get_fperiod();
+            let step_all = |e: &Engine, labels: &Vec<String>, pause: Option<(&Vec<String>, usize)>| -> Vec<f64> {
+                let mut g = e.generator(labels.clone()).unwrap();
+                let mut out = Vec::new();
+                let mut buf = vec![0.0; fp];
+                let mut k = 0usize;
+                while g.generate_step(&mut buf) > 0 {
+                    out.extend_from_slice(&buf);
+                    k += 1;
+                    if let Some((other, at)) = pause { if k == at { let _ = e.synthesize(other.clone()).unwrap(); } }
+                }
+                out
+            };
+            let clean = step_all(&e, &labels_a, None);                       // before any batch call on this thread
+            let around = step_all(&e, &labels_a, Some((&labels_b, 5)));      // a batch call in the middle
+            let after = step_all(&e, &labels_a, None);                       // after it
+            let batch = e.synthesize(labels_a.clone()).unwrap();
+            let subnormal = clean.iter().filter(|x| **x != 0.0 && x.abs() < f64::MIN_POSITIVE).count();
+            (bits_eq(&clean, &around), bits_eq(&clean, &after), bits_eq(&clean, &batch), subnormal)
+        });
+        let (around_ok, after_ok, batch_ok, subnormal) = handle.join().expect("thread");
+        let mut line = String::from("det thread-state 1");
+        push_u(&mut line, (after_ok && batch_ok) as usize);   // "repeating a synthesis call gave a different waveform"
+        push_u(&mut line, 1);
+        push_u(&mut line, 1);
+        push_u(&mut line, around_ok as usize);                // "interleaving live generators and syntheses changed an output"
+        push_u(&mut line, 1);
+        push_u(&mut line, subnormal);
+        println!("{}", line);
+    }
     // ---- (a) k threads on one shared engine, random start stagger, mixed synthesize / generator use
     let nsched = if thorough { 500 } else { 60 };
     for i in 0..nsched {
@@ -33,6 +76,9 @@ pub fn gen(seed: u64, thorough: bool) {
         // every fourth schedule runs with phoneme alignment on, the utterances carrying no time stamps, stamps on all lines but
         // the last ones, or on the first line only — the paths that fall back to model durations (seeded change C03h: a
         // process-wide "notice printed once" latch that also guarded the fallback, so only the first call in the process was right)
+        // one schedule in eight renders at a volume so low that every sample is subnormal: results must not depend on
+        // floating-point mode bits another call left behind on the thread (seeded change C03i: flush-to-zero set by `generate_all`)
+        if i % 8 == 6 { e.condition.set_volume(-6300.0); }
         let aligned = i % 4 == 1;
         e.condition.set_phoneme_alignment_flag(aligned);
         let k = *rng.pick(&[2usize, 4, 8, 16]);
